@@ -313,12 +313,20 @@ var proposalKinds = []struct {
 	mk     func(init *channel.Allocation, fa channel.Balances) wire.Msg
 	pbBase func(env *protobuf.Envelope) *protobuf.BaseChannelProposal
 }{
-	{"LedgerChannelProposalMsg", func(init *channel.Allocation, fa channel.Balances) wire.Msg { return proposalWith(init, fa, realPeers(2)) },
-		func(env *protobuf.Envelope) *protobuf.BaseChannelProposal { return env.GetLedgerChannelProposalMsg().GetBaseChannelProposal() }},
+	{"LedgerChannelProposalMsg", func(init *channel.Allocation, fa channel.Balances) wire.Msg {
+		return proposalWith(init, fa, realPeers(2))
+	},
+		func(env *protobuf.Envelope) *protobuf.BaseChannelProposal {
+			return env.GetLedgerChannelProposalMsg().GetBaseChannelProposal()
+		}},
 	{"SubChannelProposalMsg", func(init *channel.Allocation, fa channel.Balances) wire.Msg { return subProposalWith(init, fa) },
-		func(env *protobuf.Envelope) *protobuf.BaseChannelProposal { return env.GetSubChannelProposalMsg().GetBaseChannelProposal() }},
+		func(env *protobuf.Envelope) *protobuf.BaseChannelProposal {
+			return env.GetSubChannelProposalMsg().GetBaseChannelProposal()
+		}},
 	{"VirtualChannelProposalMsg", func(init *channel.Allocation, fa channel.Balances) wire.Msg { return virtualProposalWith(init, fa) },
-		func(env *protobuf.Envelope) *protobuf.BaseChannelProposal { return env.GetVirtualChannelProposalMsg().GetBaseChannelProposal() }},
+		func(env *protobuf.Envelope) *protobuf.BaseChannelProposal {
+			return env.GetVirtualChannelProposalMsg().GetBaseChannelProposal()
+		}},
 }
 
 func fundingWith(p *channel.Params, st *channel.State) *client.VirtualChannelFundingProposalMsg {
@@ -835,8 +843,14 @@ func limitCases() []limitCase {
 		func() ([]byte, int, error) { return paramsNative(limParts+1, false, fundWrap(cat.Native)) })
 	// the nonce: the real encoders do not check its length
 	pair("Params.nonce", "value:channel.Params", "Params.nonce-bytes",
-		func() ([]byte, int, error) { r, err := encodeNative(paramsWith(realParts(2), limNonce)); return r, 8, err },
-		func() ([]byte, int, error) { r, err := encodeNative(paramsWith(realParts(2), limNonce+1)); return r, 8, err })
+		func() ([]byte, int, error) {
+			r, err := encodeNative(paramsWith(realParts(2), limNonce))
+			return r, 8, err
+		},
+		func() ([]byte, int, error) {
+			r, err := encodeNative(paramsWith(realParts(2), limNonce+1))
+			return r, 8, err
+		})
 	settleWrap := func(s cat.Ser) func(p *channel.Params) ([]byte, error) {
 		return func(p *channel.Params) ([]byte, error) {
 			return encodeEnv(s, &client.VirtualChannelSettlementProposalMsg{ChannelUpdateMsg: updateWith(otherState("parent")),
@@ -850,11 +864,23 @@ func limitCases() []limitCase {
 			off = 2
 		}
 		pair("VirtualChannelFundingProposalMsg.initial.params.nonce", s.String()+"-envelope", "Params.nonce-bytes",
-			func() ([]byte, int, error) { r, err := fundWrap(s)(paramsWith(realParts(2), limNonce)); return r, off, err },
-			func() ([]byte, int, error) { r, err := fundWrap(s)(paramsWith(realParts(2), limNonce+1)); return r, off, err })
+			func() ([]byte, int, error) {
+				r, err := fundWrap(s)(paramsWith(realParts(2), limNonce))
+				return r, off, err
+			},
+			func() ([]byte, int, error) {
+				r, err := fundWrap(s)(paramsWith(realParts(2), limNonce+1))
+				return r, off, err
+			})
 		pair("VirtualChannelSettlementProposalMsg.final.params.nonce", s.String()+"-envelope", "Params.nonce-bytes",
-			func() ([]byte, int, error) { r, err := settleWrap(s)(paramsWith(realParts(2), limNonce)); return r, off, err },
-			func() ([]byte, int, error) { r, err := settleWrap(s)(paramsWith(realParts(2), limNonce+1)); return r, off, err })
+			func() ([]byte, int, error) {
+				r, err := settleWrap(s)(paramsWith(realParts(2), limNonce))
+				return r, off, err
+			},
+			func() ([]byte, int, error) {
+				r, err := settleWrap(s)(paramsWith(realParts(2), limNonce+1))
+				return r, off, err
+			})
 	}
 	// the nonce again with the other first bytes, in every place
 	for _, fb := range firstBytes {
@@ -865,7 +891,10 @@ func limitCases() []limitCase {
 		}
 		suffix, expect := topSuffix(fb.over, fb.top)
 		add("Params.nonce", suffix, "value:channel.Params", "Params.nonce-bytes", expect,
-			func() ([]byte, int, error) { r, err := encodeNative(paramsWithTop(realParts(2), n, fb.top)); return r, 8, err })
+			func() ([]byte, int, error) {
+				r, err := encodeNative(paramsWithTop(realParts(2), n, fb.top))
+				return r, 8, err
+			})
 		for _, s := range cat.Sers {
 			s := s
 			off := 0
@@ -873,9 +902,15 @@ func limitCases() []limitCase {
 				off = 2
 			}
 			add("VirtualChannelFundingProposalMsg.initial.params.nonce", suffix, s.String()+"-envelope", "Params.nonce-bytes", expect,
-				func() ([]byte, int, error) { r, err := fundWrap(s)(paramsWithTop(realParts(2), n, fb.top)); return r, off, err })
+				func() ([]byte, int, error) {
+					r, err := fundWrap(s)(paramsWithTop(realParts(2), n, fb.top))
+					return r, off, err
+				})
 			add("VirtualChannelSettlementProposalMsg.final.params.nonce", suffix, s.String()+"-envelope", "Params.nonce-bytes", expect,
-				func() ([]byte, int, error) { r, err := settleWrap(s)(paramsWithTop(realParts(2), n, fb.top)); return r, off, err })
+				func() ([]byte, int, error) {
+					r, err := settleWrap(s)(paramsWithTop(realParts(2), n, fb.top))
+					return r, off, err
+				})
 		}
 	}
 	// protobuf: 1025 full participants do not fit a 64 KiB frame; 1025 participants without
